@@ -46,3 +46,26 @@ VARIANTS = [
     dict(prop="C18", name="benign-complete-if-let", benign=True,
          edits=[dict(file=PR, find="        let Some(state) = queries.remove(&query_id) else {\n            return Err(QueryKillStatus::NoSuchQuery(query_id));\n        };", replace="        let state = match queries.remove(&query_id) {\n            Some(s) => s,\n            None => return Err(QueryKillStatus::NoSuchQuery(query_id)),\n        };")]),
 ]
+
+HQ = "ipa-core/src/net/server/handlers/query/mod.rs"
+NS = "ipa-core/src/net/server/mod.rs"
+VARIANTS += [
+    # ---------------- C20 ----------------
+    dict(prop="C20", name="merge-after-layer", expect="ROUTE-peer|s2s:results::handler",
+         edits=[dict(file=HQ, find="        .merge(results::router(Arc::clone(&transport)))\n        .merge(status_match::router(transport))\n        .layer(layer_fn(HelperAuthentication::<_, Shard>::new))",
+                     replace="        .merge(status_match::router(Arc::clone(&transport)))\n        .layer(layer_fn(HelperAuthentication::<_, Shard>::new))\n        .merge(results::router(transport))")]),
+    dict(prop="C20", name="layer-removed-h2h", expect="ROUTE-peer|h2h:step::handler",
+         edits=[dict(file=HQ, find="        .merge(prepare::router(transport))\n        .layer(layer_fn(HelperAuthentication::<_, Helper>::new))", replace="        .merge(prepare::router(transport))")]),
+    dict(prop="C20", name="step-in-collector-router", expect="ROUTE-full|mpc:step::handler",
+         edits=[dict(file=HQ, find="        .merge(results::router(transport.inner_transport))\n}", replace="        .merge(step::router(Arc::clone(&transport.inner_transport)))\n        .merge(results::router(transport.inner_transport))\n}")]),
+    dict(prop="C20", name="forbidden-not-401", expect="GUARD-auth|status-401",
+         edits=[dict(file=HQ, find="                StatusCode::UNAUTHORIZED,\n                \"This API requires", replace="                StatusCode::FORBIDDEN,\n                \"This API requires")]),
+    dict(prop="C20", name="auth-inverted", expect="GUARD-auth|inner-call",
+         edits=[dict(file=HQ, find="            Some(ClientIdentity(_)) => self.inner.call(req).left_future(),\n            None => ready(Ok((", replace="            None => self.inner.call(req).left_future(),\n            Some(ClientIdentity(_)) => ready(Ok((")]),
+    dict(prop="C20", name="header-layer-under-tls", expect="ARM-tls|header-layer",
+         edits=[dict(file=NS, find="                    handle.clone(),\n                    svc.into_make_service(),\n                )\n                .await\n            }\n            (false, None) => {", replace="                    handle.clone(),\n                    svc.layer(layer_fn(SetClientIdentityFromHeader::<_, F>::new)).into_make_service(),\n                )\n                .await\n            }\n            (false, None) => {")]),
+    dict(prop="C20", name="identity-fabricated-in-handler", expect="WHO-identity",
+         edits=[dict(file=NS, find="    fn call(&mut self, mut req: Request<B>) -> Self::Future {\n        if let Some(id) = self.id {\n            req.extensions_mut().insert(id);\n        }", replace="    fn call(&mut self, mut req: Request<B>) -> Self::Future {\n        if let Some(id) = self.id {\n            req.extensions_mut().insert(id);\n        } else if let Some(h) = req.headers().get(F::identity_header()) {\n            if let Ok(id) = ClientIdentity::<F::Identity>::try_from(h) {\n                req.extensions_mut().insert(id);\n            }\n        }")]),
+    dict(prop="C20", name="benign-reorder-merges", benign=True,
+         edits=[dict(file=HQ, find="        .merge(step::router(Arc::clone(&transport)))\n        .merge(prepare::router(transport))\n        .layer(layer_fn(HelperAuthentication::<_, Helper>::new))", replace="        .merge(prepare::router(Arc::clone(&transport)))\n        .merge(step::router(transport))\n        .layer(layer_fn(HelperAuthentication::<_, Helper>::new))")]),
+]
